@@ -103,6 +103,9 @@ class Report:
         for v in self.violations:
             p = v.save()
             print("  violation detail: %s" % v.what)
+            if isinstance(v.payload, dict) and isinstance(v.payload.get("program"), str):
+                # the replay file stays on the machine that ran the check; the program text in the log makes the case portable
+                print("  violation program (active_cpus=%s): %s" % (v.payload.get("active_cpus"), v.payload["program"][:6000].replace("\n", " | ")))
             print("VIOLATION property=%s replay=%s" % (self.prop, p))
         print("%s %s tier=%s seed=%d evaluations=%d nontrivial=%d wall=%.1fs" % (
             self.prop, "FAILED" if self.violations else "ok", self.tier, self.seed,
